@@ -1,4 +1,9 @@
 (* C19, "the result has the same structure": at the level of expression TREES (LicGrammar.expr), not only token by token.
+   NOTE on what a tree is here: LicGrammar.expr has no operator precedence and no associativity (expr ::= operand | expr AND expr |
+   expr OR expr), so the grouping of AND/OR inside one parenthesis level is NOT fixed by the grammar: a token sequence has several
+   parses that differ only in that grouping.  What the trees do fix is the nesting of parentheses, which operand each WITH belongs to
+   and the left-to-right order of operands and operators.  canon_tree_every_parse therefore speaks about EVERY parse (in particular
+   the one SPDX precedence - AND over OR - would choose).
    An accepted token sequence is the token sequence of a well-formed tree e; the canonical tokens are the token sequence of the SAME
    tree with every leaf replaced by its canonical spelling (canon_expr e: a map over the leaves, the shape is untouched);
    that tree is again well-formed and canonicalising it again changes nothing. *)
@@ -138,5 +143,13 @@ Proof.
   rewrite <- (app_nil_r ts) in C. destruct (canon_tokens_expr e ts [] out M C) as (o1 & o2 & -> & Mo & C2).
   cbn [canon_tokens] in C2. injection C2 as <-. rewrite app_nil_r. split; [exact Mo|].
   destruct (canon_expr_ok e W). auto using canon_expr_shape.
+Qed.
+
+(* ... and this holds for every parse of the input tokens, whatever grouping of AND/OR it chooses *)
+Theorem canon_tree_every_parse ts out : canon_tokens lics excs false ts = Some out ->
+  forall e, map classify ts = expr_tokens e -> map classify out = expr_tokens (canon_expr e).
+Proof.
+  intros C e M. rewrite <- (app_nil_r ts) in C. destruct (canon_tokens_expr e ts [] out M C) as (o1 & o2 & -> & Mo & C2).
+  cbn [canon_tokens] in C2. injection C2 as <-. now rewrite app_nil_r.
 Qed.
 End Tables.
